@@ -144,68 +144,21 @@ POSTCONDITION Post
 CHECK_DEADLOCK FALSE
 """
 
-_END = re.compile(r'<<\s*"END",\s*(-?\d+),\s*(\{[^}]*\})\s*>>', re.S)
-_MAXL = re.compile(r'<<\s*"MAXL",\s*(-?\d+),\s*(\d+),\s*(\d+)\s*>>', re.S)
-
-
 def _b(x):
     return 'TRUE' if x else 'FALSE'
 
 
-def _run_shard(args):
-    cfgp, path, timeout = args
-    md = tlc._metadir('Trace_QueueCore')
-    rc, out = tlc._java(['-workers', '1', '-metadir', md, '-noGenerateSpecTE', '-config', cfgp, 'Trace_QueueCore.tla'],
-                        env={'TRACE_FILE': path}, timeout=timeout, deque=True)
-    shutil.rmtree(md, ignore_errors=True)
-    ms = tlc._STATS.findall(out)
-    return out, (int(ms[-1][0]), int(ms[-1][1])) if ms else (0, 0)
-
-
 def validate(projected, tag='qcore', timeout=1800):
     """projected: list of project() results"""
-    d = os.path.join(WORK, 'traces', tag)
-    shutil.rmtree(d, ignore_errors=True)
-    os.makedirs(d, exist_ok=True)
-    t0 = time.time()
+    from . import dtrace
     groups = {}
     for p in projected:
-        groups.setdefault(p['consts'], []).append(p)
-    jobs, owner = [], []
-    per = max(1, NCPU // max(1, len(groups)))
-    for gi, (c, trs) in enumerate(sorted(groups.items())):
-        cfgp = os.path.join(d, 'g%d.cfg' % gi)
-        with open(cfgp, 'w') as f:
-            f.write(CFG % (c[0], c[1], _b(c[2]), _b(c[3])))
-        for si, part in enumerate(chunks(trs, min(per, max(1, len(trs) // 40)))):
-            path = os.path.join(d, 'g%d_s%d.ndjson' % (gi, si))
-            with open(path, 'w') as f:
-                for tr in part:
-                    f.write(json.dumps({'id': tr['id'], 'ev': tr['ev'], 'backoff': list(c[4])}, separators=(',', ':')) + '\n')
-            jobs.append((cfgp, path, timeout))
-            owner.append(part)
-    with ThreadPoolExecutor(max_workers=NCPU) as ex:
-        results = list(ex.map(_run_shard, jobs))
-    verdicts, states, distinct = {}, 0, 0
-    for part, (out, st) in zip(owner, results):
-        if 'Model checking completed' not in out and 'No error has been found' not in out:
-            raise MachineryError('Trace_QueueCore failed: %s' % out[-3000:])
-        states += st[0]
-        distinct += st[1]
-        ends, maxl = {}, {}
-        for m in _END.finditer(out):
-            ends.setdefault(int(m.group(1)), []).append(frozenset(tlc._parse_set(m.group(2))))
-        for m in _MAXL.finditer(out):
-            maxl[int(m.group(1))] = (int(m.group(2)), int(m.group(3)))
-        for tr in part:
-            es = ends.get(tr['id'])
-            if not es:
-                k, n = maxl.get(tr['id'], (0, len(tr['ev'])))
-                nxt = tr['ev'][k - 1] if 0 < k <= len(tr['ev']) else None
-                verdicts[tr['id']] = ('DRIFT', {'consumed': k - 1, 'of': n, 'next_event': nxt, 'consts': list(tr['consts'])})
-            elif any(len(b) == 0 for b in es):
-                verdicts[tr['id']] = ('OK', None)
-            else:
-                verdicts[tr['id']] = ('MODEL_VIOL', sorted(min(es, key=len)))
-    shutil.rmtree(d, ignore_errors=True)
-    return {'verdicts': verdicts, 'states': states, 'distinct': distinct, 'groups': len(groups), 'wall_s': round(time.time() - t0, 2)}
+        c = p['consts']
+        g = groups.setdefault(c, (CFG % (c[0], c[1], _b(c[2]), _b(c[3])), []))
+        g[1].append({'id': p['id'], 'ev': p['ev'], 'backoff': list(c[4])})
+    r = dtrace.validate('Trace_QueueCore', groups, tag, timeout=timeout)
+    byid = {p['id']: p for p in projected}
+    for tid, (v, d) in r['verdicts'].items():
+        if v == 'DRIFT':
+            d['consts'] = list(byid[tid]['consts'])
+    return r
